@@ -26,8 +26,67 @@ function verdicts(parser, vals) {
 // is printed as ("a" | "b") instead of ${"a" | "b"}. To keep every OTHER defect of the same text
 // visible, the monitor repairs exactly that spelling and judges the repaired text as well.
 export function repairTemplateHoles(text) {
-  // string literals are skipped as tokens: a backtick inside "back`tick" does not open a template
-  return text.replace(/"(?:[^"\\]|\\.)*"|`(?:[^`\\]|\\.)*`/g, (tpl) => tpl[0] === '"' ? tpl : tpl.replace(/\(((?:"(?:[^"\\]|\\.)*"|true|false|\$\{string\}|\$\{number\}|\$\{boolean\})(?: \| (?:"(?:[^"\\]|\\.)*"|true|false|\$\{string\}|\$\{number\}|\$\{boolean\}))+)\)/g, (m, inner) => "${" + inner.replace(/\$\{(string|number|boolean)\}/g, "$1") + "}"));
+  // a scanner rather than one regular expression: string literals are tokens (a backtick inside
+  // "back`tick" does not delimit a template), and inside a template a parenthesised group of
+  // literals may itself contain backticks
+  const STR = /"(?:[^"\\]|\\.)*"/y;
+  const ALT = '(?:"(?:[^"\\\\]|\\\\.)*"|true|false|\\$\\{string\\}|\\$\\{number\\}|\\$\\{boolean\\})';
+  const GROUP = new RegExp(`\\((${ALT}(?: \\| ${ALT})+)\\)`, "y");
+  let out = "";
+  let i = 0;
+  let inTpl = false;
+  while (i < text.length) {
+    const c = text[i];
+    if (!inTpl) {
+      if (c === '"') {
+        STR.lastIndex = i;
+        const m = STR.exec(text);
+        if (m) {
+          out += m[0];
+          i += m[0].length;
+          continue;
+        }
+      }
+      if (c === "`") inTpl = true;
+      out += c;
+      i++;
+      continue;
+    }
+    if (c === "\\" && i + 1 < text.length) {
+      out += text.slice(i, i + 2);
+      i += 2;
+      continue;
+    }
+    if (c === "(") {
+      GROUP.lastIndex = i;
+      const m = GROUP.exec(text);
+      if (m) {
+        out += "${" + m[1].replace(/\$\{(string|number|boolean)\}/g, "$1") + "}";
+        i += m[0].length;
+        continue;
+      }
+    }
+    if (c === "`") inTpl = false;
+    out += c;
+    i++;
+  }
+  return out;
+}
+
+export function textIsRecursive(text) {
+  const decls = [...text.matchAll(/^type\s+([A-Za-z_$][\w$]*)\s*=([\s\S]*?)(?=^type\s|\s*$(?![\s\S]))/gm)].map((m) => [m[1], m[2]]);
+  const names = decls.map((d) => d[0]);
+  const edges = new Map(decls.map(([n, body]) => [n, names.filter((m) => new RegExp(`(?<![\\w$"])${m.replace(/\$/g, "\\$")}(?![\\w$"])`).test(body))]));
+  const state = new Map();
+  const visit = (n) => {
+    if (state.get(n) === 1) return true;
+    if (state.get(n) === 2) return false;
+    state.set(n, 1);
+    for (const m of edges.get(n) || []) if (visit(m)) return true;
+    state.set(n, 2);
+    return false;
+  };
+  return names.some((n) => visit(n));
 }
 
 // returns null or {clause, cause, detail, text2}
@@ -91,7 +150,9 @@ export async function run(ctx) {
       const shape = shallow(prog.env, core);
       ctx.distinct(h8(shape + [...coreKinds(prog.env, core)].sort().join(",")));
       if (f) {
-        const rec = coreKinds(prog.env, core).has("recursive");
+        // (the reference may not be able to normalise the type - conditional types outside its fragment -,
+        // so recursion is also read off the described text: an alias that reaches itself)
+        const rec = coreKinds(prog.env, core).has("recursive") || textIsRecursive(f.text || "");
         ctx.violation({
           signature: `${f.clause}|${f.cause.replace(/^identical-modulo-refs(?=$|\+)/, rec ? "identical-modulo-refs:recursive" : "identical-modulo-refs")}`,
           clause: f.clause,
